@@ -71,8 +71,14 @@ CmdCharRT(c) ==
       [] c = " " -> RT("\\s+", One(Q("plus", Cls({" ", "\n", "\t"} \cap Sigma))))
       [] OTHER   -> RT(c, One(Lit(c)))
 
-CmdWordRT(txt, pat) ==
-    LET cs   == Chars(txt)
+\* a configured pattern is inserted as ONE unit: it is grouped when pasting its text
+\* as it is would let an alternation in it swallow the neighbouring characters.
+\* Deviation "EvasionRaw": the pinned code pasted every pattern as it is.
+Unit(p) == IF HasTopAlt(p.f) /\ "EvasionRaw" \notin Deviations THEN RTGroup(p) ELSE p
+
+CmdWordRT(txt, pat0) ==
+    LET pat  == [ev |-> Unit(pat0.ev), sfx |-> Unit(pat0.sfx), nsfx |-> Unit(pat0.nsfx)]
+        cs   == Chars(txt)
         n    == Len(cs)
         \* computeSuffix
         esc  == n >= 2 /\ IsEscapedAt(cs, n)
@@ -90,6 +96,24 @@ CmdWordRT(txt, pat) ==
         ELSE [verbatim |-> FALSE,
               rt |-> IF IsEmptyRT(sfx) THEN inter(1)
                      ELSE RTCat(inter(1), RTCat(pat.ev, sfx))]
+
+\* the meaning of a command word, as structure (C04): the characters of the word, the
+\* anti-evasion pattern between any two of them, and after a trailing @ / ~ the
+\* anti-evasion pattern followed by the (no-space) suffix pattern, each pattern a unit
+CmdWordNode(txt, pat) ==
+    LET cs   == Chars(txt)
+        n    == Len(cs)
+        esc  == n >= 2 /\ IsEscapedAt(cs, n)
+        mark == IF n >= 2 /\ ~esc /\ cs[n] \in {"@", "~"} THEN cs[n] ELSE ""
+        body == IF n < 2 THEN cs
+                ELSE IF esc THEN SubSeq(cs, 1, n - 2) \o <<cs[n]>>
+                ELSE IF mark # "" THEN SubSeq(cs, 1, n - 1) ELSE cs
+        sfx  == IF mark = "@" THEN pat.sfx ELSE IF mark = "~" THEN pat.nsfx ELSE RTEmpty
+        chr(c) == IF c = " " THEN Q("plus", Cls({" ", "\n", "\t"} \cap Sigma)) ELSE Lit(c)
+        RECURSIVE inter(_)
+        inter(i) == IF i > Len(body) THEN <<>>
+                    ELSE (IF i = 1 THEN <<>> ELSE << RFrag(pat.ev.f) >>) \o << chr(body[i]) >> \o inter(i + 1)
+    IN  RCat(inter(1) \o (IF IsEmptyRT(sfx) THEN <<>> ELSE << RFrag(pat.ev.f), RFrag(sfx.f) >>))
 
 NoPattern == [ev |-> RTEmpty, sfx |-> RTEmpty, nsfx |-> RTEmpty]
 PatternFor(ct) == IF ct = "unix" THEN Cfg.unix ELSE IF ct = "windows" THEN Cfg.windows ELSE NoPattern
@@ -229,9 +253,11 @@ RStep(st, line) ==
       [] line.k = "entry" ->
             IF fr.kind = "cmdline"
             THEN LET w == CmdWordRT(line.rt.txt, PatternFor(fr.ct))
-                 IN  set([fr EXCEPT !.cur = Append(@, IF "i" \in DOMAIN line THEN RLeaf(line.i)
-                                                      ELSE RFrag(IF w.verbatim THEN line.vrt.f ELSE w.rt.f))])
-            ELSE set([fr EXCEPT !.cur = Append(@, IF "i" \in DOMAIN line THEN RLeaf(line.i) ELSE RFrag(line.rt.f))])
+                 IN  set([fr EXCEPT !.cur = Append(@, IF "i" \in DOMAIN line
+                                                      THEN RLeaf(line.i * 1000 + (IF fr.ct = "unix" THEN 1 ELSE 2))
+                                                      ELSE IF w.verbatim THEN RFrag(line.vrt.f)
+                                                      ELSE CmdWordNode(line.rt.txt, PatternFor(fr.ct)))])
+            ELSE set([fr EXCEPT !.cur = Append(@, IF "i" \in DOMAIN line THEN RLeaf(line.i * 1000 + 1) ELSE RFrag(line.rt.f))])
       [] line.k = "concat" -> set(RClose(fr))
       [] line.k = "store"  -> [set([RClose(fr) EXCEPT !.segs = <<>>])
                                   EXCEPT !.stash[line.n] = << RCat(RValue(fr)) >>]
